@@ -37,7 +37,7 @@ fn c05_only_forwardable_enters_queue() {
     unsafe { core::ptr::addr_of_mut!((*c.as_mut_ptr()).packet_queue).write(tx) };
     let client: &Client = unsafe { &*c.as_ptr() };
     let cap0 = client.packet_queue.capacity();
-    let r = client.try_send_packet(vs::key_from([2u8; 32]), d);
+    let r = client.try_send_packet(vs::key_from([0u8; 32]), d);
     assert!(r.is_ok());
     let cap1 = client.packet_queue.capacity();
     if fwd {
